@@ -26,7 +26,8 @@ func buildCallGraph(statements []ast.Statement) callGraph {
 		callerName := decl.Name.Value
 		callees := extractCallees(decl.Block)
 		if len(callees) > 0 {
-			graph[callerName] = callees
+			// Fastly reserved subroutine may be declared more than once, keep all callees
+			graph[callerName] = append(graph[callerName], callees...)
 		}
 	}
 
